@@ -166,6 +166,25 @@ namespace Pistache::Tcp
                 // Try to drain the queue
                 asyncWriteImpl(fd);
             }
+
+            // One event can report a connection readable AND writable: input
+            // that arrived while a response was waiting for write readiness.
+            // It was handled as input above; the readiness is edge-triggered
+            // and will not be reported again, so the pending writes are tried
+            // now as well - they used to stay queued until something else was
+            // written to the connection.
+            if (entry.isReadable() && entry.isWritable())
+            {
+                auto fd = static_cast<Fd>(entry.getTag().value());
+                bool pending;
+                {
+                    Guard guard(toWriteLock);
+                    auto it = toWrite.find(fd);
+                    pending = isPeerFd(fd) && it != std::end(toWrite) && !it->second.empty();
+                }
+                if (pending)
+                    asyncWriteImpl(fd);
+            }
         }
     }
 
